@@ -1878,6 +1878,20 @@ class MixedBC(ConstBC1stOrderBase):
             )
             self.homogeneous = False
 
+    def link_value(self, value: NumericArray):
+        """Link value of this boundary condition to external array.
+
+        Args:
+            value (:class:`~numpy.ndarray`): The array to link to
+        """
+        super().link_value(value)
+        # the linked value varies along the boundary -> use the same (inhomogeneous)
+        # representation for `const`, so the two can be combined
+        shape = self._shape_tensor + self._shape_boundary
+        self.const = np.array(
+            np.broadcast_to(self._match_data_shape(self.const), shape)
+        )
+
     def __eq__(self, other):
         """Checks for equality neglecting the `upper` property.
 
